@@ -73,6 +73,12 @@ func (c *Conn) Read(b []byte) (int, error) {
 // connection latency and throttling read throughput based on desired bandwidth
 // constraints.
 func (c *Conn) ReadFrom(r io.Reader) (int64, error) {
+	if c.Context != nil && c.Context.Shaping {
+		// A shaped response has to go through Write, which enforces the throttles and
+		// performs the actions of its url shape. (bufio.Writer.ReadFrom hands the body of a
+		// response to this method once its buffer has been flushed.)
+		return io.Copy(writerOnly{c}, r)
+	}
 	c.ronce.Do(c.sleepLatency)
 
 	var total int64
@@ -92,6 +98,10 @@ func (c *Conn) ReadFrom(r io.Reader) (int64, error) {
 		}
 	}
 }
+
+// writerOnly hides every method of a writer except Write, so that io.Copy does not
+// call ReadFrom again.
+type writerOnly struct{ io.Writer }
 
 // Close closes the connection.
 // Any blocked Read or Write operations will be unblocked and return errors.
